@@ -53,6 +53,9 @@ class FnResult:
 def check_function(P, specs, key, outdir, timeout, tier):
     r = FnResult(key)
     t0 = time.time()
+    sp0 = specs.get(key)
+    if sp0 is not None and (sp0.extra.get('backend') == 'vcgen' or sp0.is_lemma):
+        return check_function_vcgen(P, specs, key, outdir, timeout, tier)
     try:
         info = cbmcdrv.build_check(P, specs, key, outdir)
         r.info = info
@@ -70,6 +73,42 @@ def check_function(P, specs, key, outdir, timeout, tier):
             r.undecided = 'solver messages: ' + ' | '.join(res['messages'][:3])
     except Undecided as e:
         r.undecided = str(e)
+    except Exception as e:
+        r.undecided = 'internal error: %s\n%s' % (e, traceback.format_exc()[-1500:])
+    r.seconds = time.time() - t0
+    return r
+
+
+def check_function_vcgen(P, specs, key, outdir, timeout, tier):
+    from . import vcgen
+    from cxx2c.ctypes_ import Unsupported
+    r = FnResult(key)
+    r.backend = 'vcgen'
+    r.solver = 'z3 %s (Int/Real/Array)' % vcgen.z3.get_version_string()
+    t0 = time.time()
+    try:
+        if key.startswith('lemma:'):
+            vcs, eng = vcgen.prove_lemma(P, specs, key[6:])
+            eng.inputs = {}
+        else:
+            if key.split('@')[0] not in P.functions:
+                raise Undecided('extraction break: function %s not found in the current tree' % key)
+            eng = vcgen.Engine(P, specs, key)
+            vcs = eng.verify_function()
+        vcgen.discharge(vcs, timeout_ms=30000 if tier == 'quick' else 300000)
+        for i, vc in enumerate(vcs):
+            o = {'name': '%s.vc.%d' % (cbmcdrv.short(key), i), 'desc': vc.name + (' (%s)' % vc.where if vc.where else ''), 'class': vc.cls,
+                 'status': vc.status, 'location': vc.where, 'seconds': round(vc.seconds, 3)}
+            if vc.status == 'FAILURE' and vc.model is not None and vc.cls != 'vacuity':
+                o['model'] = {str(d): str(vc.model[d]) for d in vc.model.decls()}
+            r.obligations.append(o)
+        r.info = {'name': cbmcdrv.short(key).replace('::', '_'), 'path': None, 'has_loop_contracts': False, 'callees': eng.callees,
+                  'ast_hash': None, 'rules': {}, 'assumptions': sorted(eng.assumptions), 'inputs': list(eng.inputs)}
+        r.cmd = 'z3 (python API): unsat check of hypotheses /\\ not goal per obligation, 30 s each'
+    except Undecided as e:
+        r.undecided = str(e)
+    except Unsupported as e:
+        r.undecided = 'extraction break: %s' % e
     except Exception as e:
         r.undecided = 'internal error: %s\n%s' % (e, traceback.format_exc()[-1500:])
     r.seconds = time.time() - t0
@@ -122,10 +161,14 @@ def run_property(pid, cfg, tier='quick', seed=0, replayer=None):
     timeout = cfg.get('timeout', {}).get(tier, 600 if tier == 'quick' else 3600)
     jobs = int(os.environ.get('VERIF_JOBS', '14'))
     results = []
+    def is_vc(key):
+        return specs.get(key) is not None and (specs[key].extra.get('backend') == 'vcgen' or specs[key].is_lemma)
     with ThreadPoolExecutor(jobs) as ex:
-        futs = [ex.submit(check_function, P, specs, key, outdir, timeout, tier) for key in cfg['functions']]
-        for f in futs:
-            results.append(f.result())
+        futs = {key: ex.submit(check_function, P, specs, key, outdir, timeout, tier) for key in cfg['functions'] if not is_vc(key)}
+        # the z3 Python API shares one global context: vcgen functions run here, one after the other
+        vres = {key: check_function(P, specs, key, outdir, timeout, tier) for key in cfg['functions'] if is_vc(key)}
+        for key in cfg['functions']:
+            results.append(vres[key] if key in vres else futs[key].result())
     table = {}
     for r in results:
         sp = specs.get(r.key)
@@ -137,7 +180,7 @@ def run_property(pid, cfg, tier='quick', seed=0, replayer=None):
         table[r.key] = {'status': 'ok', 'obligations': len(r.obligations) - len(j['tolerated']), 'discharged': len(j['discharged']),
                         'by_class': dict(collections.Counter(o['class'] for o in j['discharged'])),
                         'tolerated': ['%s: %s (%s)' % (o['name'], o['desc'], o['tolerated'][1]) for o in j['tolerated']],
-                        'backend': 'cbmc %s' % ('+ goto-instrument --apply-loop-contracts' if r.info.get('has_loop_contracts') else '(loop-free: complete)'),
+                        'backend': ('vcgen (own WP generator over the clang AST) -> z3' if r.backend == 'vcgen' else 'cbmc %s' % ('+ goto-instrument --apply-loop-contracts' if r.info.get('has_loop_contracts') else '(loop-free: complete)')),
                         'solver': r.solver, 'seconds': round(r.seconds, 1), 'ast_hash': r.info.get('ast_hash'),
                         'callees_by_contract': [cbmcdrv.short(c) for c in r.info.get('callees', [])], 'translation_rules_fired': sum(r.info.get('rules', {}).values())}
         if j['vacuous']:
@@ -157,10 +200,15 @@ def run_property(pid, cfg, tier='quick', seed=0, replayer=None):
                         hit = k
                 if hit:
                     known_hits.append((hit, r.key, o))
+                    table[r.key]['obligations'] -= 1      # exhibits a recorded finding: listed, not part of the proof claim
+                    table[r.key].setdefault('known_finding_obligations', []).append('%s | %s' % (o['name'], o['desc']))
                 else:
                     rest.append(o)
             if rest:
                 violations.append((r, rest, j))
+            else:
+                table[r.key]['status'] = 'known-finding'
+                table[r.key].pop('failed', None)
         elif j['unknown']:
             undecided.append('%s: %d obligations left UNKNOWN by cbmc without any failure' % (r.key, len(j['unknown'])))
             table[r.key]['status'] = 'undecided'
